@@ -48,13 +48,39 @@ SIG = {
     '_dSIS_effective_degree_': [('X', 'v'), ('t', 'q'), ('original_shape', 'shape'), ('tau', 'q'), ('gamma', 'q')],
     '_dSIR_effective_degree_': [('X', 'v'), ('t', 'q'), ('N', 'q'), ('original_shape', 'shape'), ('tau', 'q'), ('gamma', 'q')],
 }
+SIG.update({
+    '_dSIS_heterogeneous_pairwise_': [('X', 'v'), ('t', 'q'), ('Nk', 'v'), ('NkNl', 'msq:Ks'), ('tau', 'q'), ('gamma', 'q'), ('Ks', 'v')],
+    '_dSIR_heterogeneous_pairwise_': [('X', 'v'), ('t', 'q'), ('tau', 'q'), ('gamma', 'q'), ('Nk', 'v'), ('Ks', 'v')],
+    '_dSIS_pair_based_': [('V', 'v'), ('t', 'q')] + NODEARGS,
+    '_dSIR_pair_based_': [('V', 'v'), ('t', 'q')] + NODEARGS,
+})
 FUNCS = list(SIG)
-COQTY = {'q': 'Q', 'v': 'vec', 'graph': 'graph', 'nodes': 'list node', 'idx': 'node -> nat', 'f2': 'node -> node -> Q',
+COQTY = {'q': 'Q', 'v': 'vec', 'msq:Ks': 'vec', 'graph': 'graph', 'nodes': 'list node', 'idx': 'node -> nat', 'f2': 'node -> node -> Q',
          'f1': 'node -> Q', 'shape': '(nat * nat)%type'}
 
 
 class Refuse(Exception):
     pass
+
+
+NATDEF = {}          # let-bound nat names of the function being translated -> their definitions
+
+
+def norm_nat(t):
+    """nat term with let-bound names expanded and blanks / scope marks removed (syntactic comparison of shapes)"""
+    import re
+    for _ in range(20):
+        t2 = re.sub(r'\bn_[A-Za-z0-9_]+\b', lambda m: '(%s)' % NATDEF[m.group(0)] if m.group(0) in NATDEF else m.group(0), t)
+        if t2 == t:
+            break
+        t = t2
+    t = t.replace('%nat', '').replace(' ', '')
+    while True:                                   # drop redundant parentheses around atoms: ((x)) -> (x)
+        t2 = re.sub(r'\(\(([^()]*)\)\)', r'(\1)', t)
+        if t2 == t:
+            break
+        t = t2
+    return t
 
 
 class E:
@@ -80,6 +106,7 @@ class Tr:
         self.lets = []                  # (coq name, term)
         self.pending = {}               # zero arrays waiting for the loop that defines them: name -> ('v', len) | ('m', (r, c))
         self.cells = {}                 # inside a loop body: (array name) -> coq name of the cell written in this iteration
+        self.fresh = set()              # computed 1-D arrays with no alias (targets of `a[a == 0] = 1`)
 
     # ------------------------------------------------------------------ helpers
     def refuse(self, node, what=None):
@@ -99,6 +126,7 @@ class Tr:
             if e.n is not None:
                 nn = 'n_' + name
                 self.lets.append((nn, e.n))
+                NATDEF[nn] = e.n
             v = E('i', x, n=nn, ival=e.ival)
         elif e.ty in ('q', 'node', 'b'):
             self.lets.append((x, e.s)); v = E(e.ty, x)
@@ -106,6 +134,12 @@ class Tr:
             self.lets.append((x, e.s)); v = E('v', x, ln=e.len)
         elif e.ty == 'm':
             self.lets.append((x, e.s)); v = E('m', x, shape=e.shape)
+        elif e.ty == 'fv':
+            self.lets.append((x, e.s)); v = E('fv', x, ln=e.len)
+        elif e.ty == 'fm':
+            self.lets.append((x, e.s)); v = E('fm', x, shape=e.shape)
+        elif e.ty == 'col':
+            self.lets.append((x, e.s)); v = E('col', x)
         else:
             self.refuse(None, 'binding of a %s' % e.ty)
         self.env[name] = v
@@ -120,6 +154,50 @@ class Tr:
         if e.ty == 'i' and e.n is not None:
             return e.n
         self.refuse(node, 'expression used as an index / length is not a non-negative int expression')
+
+    # ------------------------------------------------------------------ arrays
+    # 1-D: 'v' (list term) | 'fv' (function nat -> Q, .len);  2-D: 'm' (flat list + .shape) | 'fm' (function nat -> nat -> Q, .shape)
+    # 'col': a column (n, 1), .s = the flat list
+    def elt1(self, e, i):
+        return '(vnth %s %s)' % (i, e.s) if e.ty == 'v' else '(%s %s)' % (e.s, i)
+
+    def elt2(self, e, i, j):
+        return '(vnth (%s * %s + %s) %s)' % (i, e.shape[1], j, e.s) if e.ty == 'm' else '(%s %s %s)' % (e.s, i, j)
+
+    def len1(self, e):
+        return e.len if (e.ty == 'fv' or e.len is not None) else '(length %s)' % e.s
+
+    def to_list(self, e, node):
+        if e.ty == 'v':
+            return e.s
+        if e.ty == 'fv':
+            return '(tab %s %s)' % (e.len, e.s)
+        if e.ty == 'col':
+            return e.s
+        self.refuse(node, 'conversion of a %s to a flat vector' % e.ty)
+
+    def arr_binop(self, a, b, sym, node):
+        """numpy elementwise arithmetic with broadcasting of scalars and of 1-D operands along the last axis;
+        shapes are those of the left-most array operand (numpy raises where they do not fit: outside the domain)"""
+        d1 = ('v', 'fv'); d2 = ('m', 'fm'); sc = ('q', 'i')
+        def op(x, y):
+            return '(%s %s %s)' % (x, sym, y)
+        if a.ty in d2 or b.ty in d2:
+            sh = a.shape if a.ty in d2 else b.shape
+            def el(e):
+                if e.ty in d2: return self.elt2(e, 'i_', 'j_')
+                if e.ty in d1: return self.elt1(e, 'j_')
+                if e.ty in sc: return e.s
+                self.refuse(node, 'operand %s' % e.ty)
+            return E('fm', '(fun i_ j_ => %s)' % op(el(a), el(b)), shape=sh)
+        if a.ty in d1 or b.ty in d1:
+            ln = self.len1(a) if a.ty in d1 else self.len1(b)
+            def el(e):
+                if e.ty in d1: return self.elt1(e, 'i_')
+                if e.ty in sc: return e.s
+                self.refuse(node, 'operand %s' % e.ty)
+            return E('fv', '(fun i_ => %s)' % op(el(a), el(b)), ln=ln)
+        self.refuse(node, 'arithmetic between %s and %s' % (a.ty, b.ty))
 
     # ------------------------------------------------------------------ expressions
     def expr(self, n):
@@ -143,7 +221,17 @@ class Tr:
                 return E('i', '(- %s)' % a.s, ival=(-a.ival if a.ival is not None else None))
             if a.ty == 'q':
                 return E('q', '(- %s)' % a.s)
+            if a.ty in ('v', 'fv', 'm', 'fm'):
+                return self.arr_binop(E('i', '0', n='0%nat', ival=0), a, '-', n)
             self.refuse(n, 'unary minus of a %s' % a.ty)
+        if isinstance(n, ast.Attribute) and n.attr == 'T':
+            a = self.expr(n.value)
+            if a.ty in ('m', 'fm'):
+                return E('fm', '(fun i_ j_ => %s)' % self.elt2(a, 'j_', 'i_'), shape=(a.shape[1], a.shape[0]))
+            self.refuse(n, '.T of a %s' % a.ty)
+        if isinstance(n, ast.IfExp):
+            c = self.cond(n.test); a = self.expr(n.body); b = self.expr(n.orelse)
+            return E('q', '(if %s then %s else %s)' % (c.s, self.as_q(a, n.body), self.as_q(b, n.orelse)))
         if isinstance(n, ast.BinOp):
             return self.binop(n)
         if isinstance(n, ast.Call):
@@ -175,7 +263,7 @@ class Tr:
             return E('i', '(%s %s %s)' % (a.s, sym, b.s), n=nn, ival=iv)
         if a.ty in ('q', 'i') and b.ty in ('q', 'i'):
             return E('q', '(%s %s %s)' % (a.s, sym, b.s))
-        self.refuse(n, 'arithmetic between %s and %s' % (a.ty, b.ty))
+        return self.arr_binop(a, b, sym, n)
 
     def comp_sum(self, comp, node):
         """sum(<elt> for x in <iter>) / sum([<elt> for x in <iter>])"""
@@ -239,8 +327,23 @@ class Tr:
                 self.refuse(n, 'sum argument')
         if isinstance(f, ast.Attribute) and isinstance(f.value, ast.Name) and f.value.id == 'np' and 'np' not in self.env:
             if f.attr == 'array' and len(n.args) == 1 and not kw:
-                a = self.expr(n.args[0])
-                if a.ty in ('v', 'm'):
+                lc = n.args[0]
+                if isinstance(lc, ast.ListComp):
+                    # np.array([e(v) for v in A]) over a 1-D array
+                    if len(lc.generators) != 1 or lc.generators[0].ifs or not isinstance(lc.generators[0].target, ast.Name):
+                        self.refuse(n, 'list comprehension shape')
+                    A = self.expr(lc.generators[0].iter)
+                    if A.ty not in ('v', 'fv'):
+                        self.refuse(n, 'list comprehension over a %s' % A.ty)
+                    x = lc.generators[0].target.id
+                    saved = self.env.get(x)
+                    self.env[x] = E('q', self.var(x))
+                    body = self.expr(lc.elt)
+                    if saved is None: self.env.pop(x, None)
+                    else: self.env[x] = saved
+                    return E('fv', '(fun i_ => (fun %s => %s) %s)' % (self.var(x), self.as_q(body, lc.elt), self.elt1(A, 'i_')), ln=self.len1(A))
+                a = self.expr(lc)
+                if a.ty in ('v', 'm', 'fv', 'fm'):
                     return a
                 self.refuse(n, 'np.array of a %s' % a.ty)
             if f.attr == 'concatenate' and len(n.args) == 1 and set(kw) <= {'axis'}:
@@ -255,17 +358,25 @@ class Tr:
                         parts.append('[%s]' % '; '.join(self.as_q(self.expr(x), x) for x in el.elts))
                         continue
                     e = self.expr(el)
-                    if e.ty != 'v':
+                    if e.ty not in ('v', 'fv'):
                         self.refuse(el, 'np.concatenate of a %s (1-D parts only)' % e.ty)
-                    parts.append(e.s)
+                    parts.append(self.to_list(e, el))
                 return E('v', '(%s)' % ' ++ '.join(parts))
             self.refuse(n, 'call np.%s' % f.attr)
         if isinstance(f, ast.Attribute) and not kw:
+            if f.attr == 'order' and not n.args and isinstance(f.value, ast.Name) and f.value.id in self.env and self.env[f.value.id].ty == 'graph':
+                g = self.env[f.value.id].s
+                return E('i', '(Qnat (length (gnodes %s)))' % g, n='(length (gnodes %s))' % g)
             if f.attr == 'sum' and not n.args:
                 a = self.expr(f.value)
                 if a.ty in ('v', 'm'):
                     return E('q', '(vsum %s)' % a.s)
                 self.refuse(n, '.sum() of a %s' % a.ty)
+            if f.attr == 'sum' and len(n.args) == 1 and isinstance(n.args[0], ast.Constant) and n.args[0].value == 1:
+                a = self.expr(f.value)
+                if a.ty in ('m', 'fm'):
+                    return E('fv', '(fun i_ => sumn %s (fun j_ => %s))' % (a.shape[1], self.elt2(a, 'i_', 'j_')), ln=a.shape[0])
+                self.refuse(n, '.sum(1) of a %s' % a.ty)
         self.refuse(n, 'call')
 
     def index_nat(self, n):
@@ -280,7 +391,35 @@ class Tr:
             if ast.dump(sl) == key:
                 return E('q', cellvar)
             self.refuse(n, 'read of %s at a cell other than the one written in this iteration' % base.id)
+        # np.concatenate((col, col, ..), axis=0).T[0]: the flats of the columns, one after the other
+        if isinstance(base, ast.Attribute) and base.attr == 'T' and isinstance(base.value, ast.Call) and isinstance(sl, ast.Constant) and sl.value == 0:
+            c = base.value; f = c.func
+            kw = {k.arg: k.value for k in c.keywords}
+            if isinstance(f, ast.Attribute) and isinstance(f.value, ast.Name) and f.value.id == 'np' and f.attr == 'concatenate' \
+                    and len(c.args) == 1 and isinstance(c.args[0], (ast.Tuple, ast.List)) and set(kw) <= {'axis'} \
+                    and ('axis' not in kw or (isinstance(kw['axis'], ast.Constant) and kw['axis'].value == 0)):
+                parts = []
+                for el in c.args[0].elts:
+                    e = self.expr(el)
+                    if e.ty != 'col':
+                        self.refuse(el, 'np.concatenate(..).T[0] of a %s (columns only)' % e.ty)
+                    parts.append(e.s)
+                return E('v', '(%s)' % ' ++ '.join(parts))
+            self.refuse(n, '.T[0]')
         a = self.expr(base)
+        # a[:, None]: 1-D array as a column
+        if a.ty in ('v', 'fv') and isinstance(sl, ast.Tuple) and len(sl.elts) == 2 and isinstance(sl.elts[0], ast.Slice) \
+                and sl.elts[0].lower is None and sl.elts[0].upper is None and sl.elts[0].step is None \
+                and isinstance(sl.elts[1], ast.Constant) and sl.elts[1].value is None:
+            return E('col', self.to_list(a, n))
+        if a.ty == 'fm':
+            if isinstance(sl, ast.Tuple) and len(sl.elts) == 2 and not any(isinstance(x, ast.Slice) for x in sl.elts):
+                return E('q', self.elt2(a, self.index_nat(sl.elts[0]), self.index_nat(sl.elts[1])))
+            self.refuse(n, '2-D subscript')
+        if a.ty == 'fv':
+            if isinstance(sl, ast.Slice) or isinstance(sl, ast.Tuple):
+                self.refuse(n, 'slice of a computed array')
+            return E('q', self.elt1(a, self.index_nat(sl)))
         if a.ty == 'shape':
             if isinstance(sl, ast.Constant) and sl.value in (0, 1):
                 p = 'fst' if sl.value == 0 else 'snd'
@@ -343,6 +482,11 @@ class Tr:
     # ------------------------------------------------------------------ statements
     def shape_of(self, n):
         """shape expression: a name of type shape, or a product r*c (flatten)"""
+        if isinstance(n, ast.Tuple) and len(n.elts) == 2:
+            a = self.expr(n.elts[0]); b = self.expr(n.elts[1])
+            if b.ty == 'i' and b.ival == 1:
+                return ('col', self.as_nat(a, n))
+            return ('2d', (self.as_nat(a, n), self.as_nat(b, n)))
         e = self.expr(n)
         if e.ty == 'shape':
             return ('2d', ('(fst %s)' % e.s, '(snd %s)' % e.s))
@@ -352,6 +496,8 @@ class Tr:
 
     def stmt_zeros(self, st, name, arg):
         kind, sh = self.shape_of(arg)
+        if kind == 'col':
+            self.refuse(st, 'np.zeros of a column shape')
         self.pending[name] = ('v', sh) if kind == '1d' else ('m', sh)
         self.pending_line = getattr(self, 'pending_line', {}); self.pending_line[name] = st.lineno
 
@@ -390,21 +536,45 @@ class Tr:
                         self.refuse(st, 'reshape of unbound %s' % nm)
                     a = self.env[nm]
                     kind, sh = self.shape_of(st.value)
-                    if kind == '2d' and a.ty == 'v':
+                    if kind == 'col' and a.ty in ('m', 'fm'):
+                        if norm_nat(sh) != norm_nat('(%s * %s)' % a.shape):
+                            self.refuse(st, 'column of a length other than r*c (%s vs %s)' % (norm_nat(sh), norm_nat('(%s * %s)' % a.shape)))
+                        flat = a.s if a.ty == 'm' else '(tab2 %s %s %s)' % (a.shape[0], a.shape[1], a.s)
+                        self.env[nm] = E('col', flat)
+                    elif kind == '2d' and a.ty == 'v':
                         self.env[nm] = E('m', a.s, shape=sh)
                     elif kind == '1d' and a.ty == 'm':
                         # numpy checks r*c == n at run time; the product must be literally that of the shape
-                        if sh.replace(' ', '') != ('(%s * %s)%%nat' % a.shape).replace(' ', ''):
+                        if norm_nat(sh) != norm_nat('(%s * %s)' % a.shape):
                             self.refuse(st, 'flattening to a length other than r*c')
                         self.env[nm] = E('v', a.s, ln=sh)
                     else:
                         self.refuse(st, 'reshape')
                     continue
+                # a[a == 0] = 1 on a freshly computed, un-aliased 1-D array
+                if isinstance(tg, ast.Subscript) and isinstance(tg.value, ast.Name) and isinstance(tg.slice, ast.Compare) \
+                        and len(tg.slice.ops) == 1 and isinstance(tg.slice.ops[0], ast.Eq) and isinstance(tg.slice.left, ast.Name) \
+                        and tg.slice.left.id == tg.value.id and isinstance(tg.slice.comparators[0], ast.Constant) and tg.slice.comparators[0].value == 0 \
+                        and isinstance(st.value, ast.Constant) and st.value.value == 1:
+                    nm = tg.value.id
+                    if nm not in self.fresh:
+                        self.refuse(st, 'masked assignment to %s, which is a view / an alias / not a computed 1-D array' % nm)
+                    a = self.env[nm]
+                    self.bind(nm, E('fv', '(fun i_ => guard0 %s)' % self.elt1(a, 'i_'), ln=self.len1(a)))
+                    continue
                 if isinstance(tg, ast.Name):
                     if tg.id in self.pending:
                         self.refuse(st, 'rebinding of %s' % tg.id)
                     v = self.expr(st.value)
+                    if isinstance(st.value, ast.Name):          # alias: later in-place writes to either name would be shared
+                        self.fresh.discard(st.value.id); self.fresh.discard(tg.id)
+                        self.env[tg.id] = v
+                        continue
                     self.bind(tg.id, v)
+                    if v.ty == 'fv' and isinstance(st.value, ast.BinOp):
+                        self.fresh.add(tg.id)
+                    else:
+                        self.fresh.discard(tg.id)
                     continue
                 self.refuse(st, 'assignment target')
             if isinstance(st, ast.For):
@@ -434,6 +604,8 @@ class Tr:
             return self.loop_enum(st)
         if isinstance(it, ast.Call) and isinstance(it.func, ast.Name) and it.func.id == 'range' and len(it.args) == 1 and not it.keywords:
             return self.loop_range2(st)
+        if isinstance(it, ast.Name) and it.id in self.env and self.env[it.id].ty == 'nodes':
+            return self.loop_accum(st)
         self.refuse(st, 'loop iterator')
 
     def local_lets(self, sub, out):
@@ -544,7 +716,7 @@ class Tr:
                 if arr not in self.pending or self.pending[arr][0] != 'm' or arr in [w for w, _ in written]:
                     self.refuse(b, 'write to %s (not a fresh 2-D zero array, or written twice)' % arr)
                 sh = self.pending[arr][1]
-                if (sh[0].replace(' ', ''), sh[1].replace(' ', '')) != (r.replace(' ', ''), c.replace(' ', '')):
+                if (norm_nat(sh[0]), norm_nat(sh[1])) != (norm_nat(r), norm_nat(c)):
                     self.refuse(b, 'loop ranges differ from the shape of %s' % arr)
                 e = sub.expr(b.value)
                 cell = 'c_' + arr
@@ -558,6 +730,117 @@ class Tr:
             inner_t = Tr(self.fname, {}); inner_t.lets = sub.lets[:upto]
             body = self.local_lets(inner_t, 'c_' + arr)
             self.bind(arr, E('m', '(tab2 %s %s (fun %s %s => %s))' % (sh[0], sh[1], self.var(s), self.var(i), body), shape=sh))
+
+    # ------------------------------------------------------------------ L3: accumulation through index_of_node
+    def parse_nest(self, st, depth, outer_nodes):
+        """-> dict(var, iter (coq list term), skip [coq bool terms], binds [(int name, node var)], adds [(arr, [idx names], value ast)], kids)"""
+        if st.orelse or not isinstance(st.target, ast.Name):
+            self.refuse(st, 'loop shape')
+        var = st.target.id
+        it = st.iter
+        if depth == 0:
+            lst = self.env[it.id].s
+        elif self.is_neighbors(it):
+            lst = '(gadj %s %s)' % (self.env[it.func.value.id].s, self.expr(it.args[0]).s)
+        else:
+            self.refuse(st, 'inner loop iterator (only G.neighbors(<node>))')
+        if var in self.env:
+            self.refuse(st, 'loop variable %s shadows a name' % var)
+        self.env[var] = E('node', self.var(var))
+        node = {'var': var, 'iter': lst, 'skip': [], 'binds': [], 'adds': [], 'kids': [], 'line': st.lineno}
+        body = list(st.body)
+        # leading `if w == u: continue`
+        while body and isinstance(body[0], ast.If):
+            b = body.pop(0)
+            if b.orelse or len(b.body) != 1 or not isinstance(b.body[0], ast.Continue):
+                self.refuse(b, 'if in an accumulation loop (only `if a == b: continue` first)')
+            c = self.cond(b.test)
+            node['skip'].append('(negb %s)' % c.s)
+        for b in body:
+            if isinstance(b, ast.Assign) and len(b.targets) == 1 and isinstance(b.targets[0], ast.Name) and isinstance(b.value, ast.Subscript) \
+                    and isinstance(b.value.value, ast.Name) and b.value.value.id in self.env and self.env[b.value.value.id].ty == 'idx':
+                nm = b.targets[0].id
+                if nm in self.env:
+                    self.refuse(b, 'rebinding of %s' % nm)
+                u = self.expr(b.value.slice)
+                if u.ty != 'node' or not isinstance(b.value.slice, ast.Name) or b.value.slice.id != var:
+                    self.refuse(b, 'index taken of a node other than the loop variable')
+                idxf = self.env[b.value.value.id].s
+                node['binds'].append((nm, var, '(%s %s)' % (idxf, self.var(var))))
+                self.env[nm] = E('i', '(Qnat n_%s)' % nm, n='n_' + nm)
+                continue
+            if isinstance(b, ast.AugAssign) and isinstance(b.op, ast.Add) and isinstance(b.target, ast.Subscript) and isinstance(b.target.value, ast.Name):
+                arr = b.target.value.id; sl = b.target.slice
+                idxs = [sl] if isinstance(sl, ast.Name) else (list(sl.elts) if isinstance(sl, ast.Tuple) else None)
+                if idxs is None or not all(isinstance(x, ast.Name) for x in idxs) or arr not in self.pending:
+                    self.refuse(b, 'accumulation target')
+                e = self.expr(b.value)
+                node['adds'].append((arr, [x.id for x in idxs], self.as_q(e, b.value), b))
+                continue
+            if isinstance(b, ast.For):
+                node['kids'].append(self.parse_nest(b, depth + 1, outer_nodes + [var]))
+                continue
+            self.refuse(b, 'statement in an accumulation loop')
+        # names bound inside the loop go out of scope
+        self.env.pop(var, None)
+        for nm, _, _ in node['binds']:
+            self.env.pop(nm, None)
+        return node
+
+    def emit_accum(self, node, arr, idxs, coords):
+        """sum over the iterations of `node` (and below) of what they add to the cell `coords` of `arr`;
+        an iteration addresses the cell iff the index variables it binds equal the coordinates"""
+        def has(nd):
+            return any(a == arr for a, _, _, _ in nd['adds']) or any(has(k) for k in nd['kids'])
+        if not has(node):
+            return None
+        filt = list(node['skip'])
+        lets = ''
+        for nm, var, term in node['binds']:
+            lets += 'let n_%s := %s in ' % (nm, term)
+            if nm in idxs:
+                filt.append('(Nat.eqb %s %s)' % (term, coords[idxs.index(nm)]))
+        terms = [v for a, ix, v, _ in node['adds'] if a == arr]
+        for k in node['kids']:
+            t = self.emit_accum(k, arr, idxs, coords)
+            if t is not None:
+                terms.append(t)
+        body = terms[0] if len(terms) == 1 else '(' + ' + '.join(terms) + ')'
+        lst = node['iter']
+        if filt:
+            f = filt[0]
+            for g in filt[1:]:
+                f = '(%s && %s)%%bool' % (f, g)
+            lst = '(filter (fun %s => %s) %s)' % (self.var(node['var']), f, lst)
+        return '(sumQ (map (fun %s => %s%s) %s))' % (self.var(node['var']), lets, body, lst)
+
+    def loop_accum(self, st):
+        saved = dict(self.env)
+        nest = self.parse_nest(st, 0, [])
+        self.env = saved
+        # every array: one index tuple, each index bound by the loop at whose level (or above) the array is written
+        def walk(nd, bound, out):
+            bound = bound + [nm for nm, _, _ in nd['binds']]
+            for arr, ix, _, b in nd['adds']:
+                if not all(x in bound for x in ix):
+                    self.refuse(b, 'accumulation index not bound by an enclosing loop')
+                if arr in out and out[arr] != ix:
+                    self.refuse(b, 'array %s addressed through different index variables' % arr)
+                out.setdefault(arr, ix)
+            for k in nd['kids']:
+                walk(k, bound, out)
+        arrs = {}
+        walk(nest, [], arrs)
+        for arr, ix in arrs.items():
+            kind, sh = self.pending.pop(arr)
+            if kind == 'v' and len(ix) == 1:
+                t = self.emit_accum(nest, arr, ix, ['p_'])
+                self.bind(arr, E('fv', '(fun p_ => %s)' % t, ln=sh))
+            elif kind == 'm' and len(ix) == 2:
+                t = self.emit_accum(nest, arr, ix, ['p_', 'q_'])
+                self.bind(arr, E('fm', '(fun p_ q_ => %s)' % t, shape=sh))
+            else:
+                self.refuse(st, 'rank of %s' % arr)
 
 
 def coqname(pyname):
@@ -575,7 +858,12 @@ def translate_fn(fn):
         raise Refuse('rhs2d2v: parameter list of %s at analytic.py:%d is %s, expected %s' % (name, fn.lineno, params, want))
     env = {}
     for p, ty in SIG[name]:
-        env[p] = E(ty, 'v_' + p)
+        if ty.startswith('msq:'):
+            side = '(length v_%s)' % ty.split(':')[1]
+            env[p] = E('m', 'v_' + p, shape=(side, side))
+        else:
+            env[p] = E(ty, 'v_' + p)
+    NATDEF.clear()
     tr = Tr(name, env)
     ret = tr.body(fn.body)
     binders = ' '.join('(v_%s : %s)' % (p, COQTY[ty]) for p, ty in SIG[name])
